@@ -1,26 +1,130 @@
-import GateryModel.C18.Lemmas
+import GateryModel.C18.Seq
 /-!
 # C18 — property theorems
 
-The four-state bit-vector container behaves like a plain array of bits: every operation of the
-word-level model (`C18/Model.lean`, tied to `BitVectorState.h` by translator + correspondence)
-has exactly the effect of the bit-array specification (`C18/Spec.lean`) and touches no bit outside
-the addressed range. Statements only; the work is in `C18/Lemmas.lean`.
+*The four-state bit-vector container behaves like a plain array of bits: every operation has exactly the
+effect of the same operation on an array of individual bits, touching no bit outside the addressed range.*
+
+Model: `C18/Model.lean` (word-level, follows `simulation/BitVectorState.h` branch by branch; leaf bit arithmetic
+regenerated from `utils/BitManipulation.h` by the translator into `Gen/BitManip.lean`).
+Specification: `C18/Spec.lean` (lists of bits, no words). All theorems quantify over every plane content,
+offset, size and value; preconditions are the ones the C++ code asserts or needs to stay inside its vectors.
+Statements only — the proofs are in `C18/Lemmas.lean`, `Lemmas2.lean`, `Seq.lean`.
+
+Covered by theorem: get/set/clear/toggle, insertNonStraddling, extractNonStraddling, insert, extract (straddling
+included), setRange/clearRange (3-segment split), copyRange (byte fast path + chunk loop), compareRange
+(DefaultConfig specialisation), resize, and arbitrary operation sequences.
+Covered by correspondence only (driver compares model AND spec with the implementation, no theorem yet):
+compareRange<ExtendedConfig>, extract(start,size)/insert(state,…)/append, operator==, allOne/allZero/anyDefined,
+extractBigInt/insertBigInt.
 -/
 namespace Gatery.C18.Props
 open Gatery.C18 Gatery.Gen
 
-/-- `insertNonStraddling`: inside the range the bits of `v`, outside nothing changes (frame). -/
+/-! ### single operations, pointwise (effect inside the range, frame outside) -/
+
 theorem insertNS_spec (p : Plane) (start size i : Nat) (v : W) (h : PreNS p start size) :
     bit (insertNS p start size v) i = if start ≤ i ∧ i < start + size then v.getLsbD (i - start) else bit p i :=
   bit_insertNS p start size i v h
 
-/-- `extractNonStraddling` returns exactly the addressed bits, zero-extended. -/
 theorem extractNS_spec (p : Plane) (start size j : Nat) (h : PreXNS p start size) :
     (extractNS p start size).getLsbD j = (decide (j < size) && bit p (start + j)) :=
   extractNS_getLsbD p start size j h
 
--- non-vacuity: the preconditions are satisfiable on a non-trivial state
-example : PreNS [0#64, 5#64] 70 20 ∧ PreXNS [0#64, 5#64] 64 64 := by decide
+/-- `insert` at any offset (word-straddling included): the `size` low bits of `v` land at `[off, off+size)`, nothing else moves. -/
+theorem insert_spec (p : Plane) (off size i : Nat) (v : W) (h : PreI p off size) :
+    bit (insert p off size v) i = if off ≤ i ∧ i < off + size then v.getLsbD (i - off) else bit p i :=
+  bit_insert p off size i v h
+
+/-- `extract` at any offset (straddling included) returns exactly the addressed bits, zero-extended. -/
+theorem extract_spec (p : Plane) (off size j : Nat) (h : PreX p off size) :
+    (extract p off size).getLsbD j = (decide (j < size) && bit p (off + j)) :=
+  extract_getLsbD p off size j h
+
+/-- `setRange`/`clearRange`: head segment, full words and trailing segment together write exactly `[off, off+size)`. -/
+theorem setRange_spec (p : Plane) (off size i : Nat) (b : Bool) (h : InRange p off size) :
+    bit (setRange p off size b) i = if off ≤ i ∧ i < off + size then b else bit p i :=
+  bit_setRange p off size i b h
+
+/-- `copyRange` (byte-aligned `memcpy` fast path followed by the 64-bit chunk loop) copies exactly `size` bits. -/
+theorem copyRange_spec (dst src : Plane) (dOff sOff size i : Nat)
+    (hd : dOff + size ≤ 64 * dst.length) (hs : sOff + size ≤ 64 * src.length) :
+    bit (copyRange dst src dOff sOff size) i =
+      if dOff ≤ i ∧ i < dOff + size then bit src (sOff + (i - dOff)) else bit dst i :=
+  bit_copyRange dst src dOff sOff size i hd hs
+
+/-- `resize`: bits below the new size are kept, everything at or above it reads as zero. -/
+theorem resize_spec (p : Plane) (n i : Nat) : bit (resizePlane p n) i = (decide (i < n) && bit p i) :=
+  bit_resizePlane p n i
+
+/-- `compareRange<DefaultConfig>`: true iff definedness agrees on every bit and values agree wherever defined. -/
+theorem compareRangeDefault_spec (dv dd sv sd : Plane) (dOff sOff size : Nat)
+    (hdv : dOff + size ≤ 64 * dv.length) (hdd : dOff + size ≤ 64 * dd.length)
+    (hsv : sOff + size ≤ 64 * sv.length) (hsd : sOff + size ≤ 64 * sd.length) :
+    compareChunksDefault dv dd sv sd dOff sOff size (size / 64 + 1) 0 = true ↔
+      ∀ j, j < size → (bit sd (sOff + j) = bit dd (dOff + j) ∧ (bit sd (sOff + j) = true → bit sv (sOff + j) = bit dv (dOff + j))) := by
+  rw [compareChunksDefault_spec dv dd sv sd dOff sOff size _ 0 hdv hdd hsv hsd (by omega)]
+  constructor
+  · intro h j hj
+    have := h j (Nat.zero_le _) hj
+    simp only [cmpDefAt, Bool.and_eq_true, Bool.or_eq_true, Bool.not_eq_true', beq_iff_eq] at this
+    refine ⟨this.1, fun hd => ?_⟩
+    rcases this.2 with h0 | h0
+    · simp [hd] at h0
+    · exact h0
+  · intro h j _ hj
+    obtain ⟨h1, h2⟩ := h j hj
+    simp only [cmpDefAt, Bool.and_eq_true, Bool.or_eq_true, Bool.not_eq_true', beq_iff_eq]
+    refine ⟨h1, ?_⟩
+    cases h0 : bit sd (sOff + j)
+    · exact Or.inl rfl
+    · exact Or.inr (h2 h0)
+
+/-! ### the same as equalities with the bit-array specification -/
+
+theorem setRange_refines (p : Plane) (n off size : Nat) (b : Bool) (h : InRange p off size) :
+    absPlane (setRange p off size b) n = specSetRange (absPlane p n) off size b := setRange_abs p n off size b h
+
+theorem insert_refines (p : Plane) (n off size : Nat) (v : W) (h : PreI p off size) :
+    absPlane (insert p off size v) n = specInsert (absPlane p n) off size v := insert_abs p n off size v h
+
+theorem copyRange_refines (dst src : Plane) (n m dOff sOff size : Nat)
+    (hd : dOff + size ≤ 64 * dst.length) (hs : sOff + size ≤ 64 * src.length) (hm : sOff + size ≤ m) :
+    absPlane (copyRange dst src dOff sOff size) n = specCopy (absPlane dst n) (absPlane src m) dOff sOff size :=
+  copyRange_abs dst src n m dOff sOff size hd hs hm
+
+theorem extract_refines (p : Plane) (n off size : Nat) (h : PreX p off size) (hn : off + size ≤ n) :
+    extract p off size = specExtract (absPlane p n) off size := extract_spec_eq p n off size h hn
+
+theorem resize_refines (p : Plane) (n m : Nat) (hc : Clean p n) :
+    absPlane (resizePlane p m) m = specResize (absPlane p n) m := resize_abs p n m hc
+
+/-! ### every operation history -/
+
+/-- For every finite sequence of resize / set / clear / toggle / setRange / insert / copyRange operations whose arguments stay
+    inside the current size, the container's content equals the result of running the same operations on a plain list of bits,
+    and the representation invariant (vector length, zero padding) is maintained. No bound on sizes, offsets or sequence length. -/
+theorem history_refines (s : P1) (ops : List Op) (hwf : s.WF) (hv : validSeq s ops) :
+    (ops.foldl P1.apply s).abs = ops.foldl specApply s.abs ∧ (ops.foldl P1.apply s).WF :=
+  run_abs s ops hwf hv
+
+/-! ### non-vacuity: the hypotheses are satisfiable on non-trivial states -/
+
+example : PreNS [0#64, 5#64] 70 20 ∧ PreXNS [0#64, 5#64] 64 64 ∧ PreI [1#64, 2#64, 3#64] 60 64 ∧ PreX [1#64, 2#64] 1 64 ∧
+    InRange [1#64, 2#64, 3#64] 5 180 := by decide
+
+/-- the empty state is well formed -/
+theorem empty_wf : (⟨0, []⟩ : P1).WF :=
+  ⟨by decide, fun i _ => bit_of_ge [] i (by simp)⟩
+
+/-- a valid non-trivial history from the empty state: grow, straddling insert, range set over three words, toggle,
+    copy from another (well-formed) state at unaligned offsets, single-bit write -/
+example : ∃ src : P1, src.WF ∧ src.size = 70 ∧
+    validSeq ⟨0, []⟩
+      [.resize 130, .insert 60 10 0x3ff#64, .setRange 3 126 true, .toggle 69, .copyFrom 64 src 1 66, .assign 129 true] := by
+  have hsrc : ((⟨0, []⟩ : P1).apply (.resize 70)).WF := (apply_abs ⟨0, []⟩ (.resize 70) empty_wf trivial).2
+  refine ⟨(⟨0, []⟩ : P1).apply (.resize 70), hsrc, rfl, ?_⟩
+  refine ⟨trivial, ⟨by decide, by decide⟩, ?_, ?_, ⟨hsrc, ?_, ?_⟩, ?_, trivial⟩ <;>
+    simp [P1.apply, Op.valid]
 
 end Gatery.C18.Props
